@@ -564,6 +564,7 @@ def run(ctx):
     # payload registries, the regular expressions of the engine-data tokenizer (tied by `decide` in Props/C06.lean section 11)
     ctx.regenerate(extract_c06.gen_alloc_sites)
     ctx.regenerate(extract_c06.gen_read_loops)
+    ctx.regenerate(extract_c06.gen_read_seeks)
     ctx.regenerate(extract_c06_reg.gen_open_registry)
     ctx.regenerate(extract_c06_re.gen_engine_patterns)
     ctx.prove(["PsdVerif.Props.C06"])
@@ -969,11 +970,24 @@ def _run(ctx, pool, hello, has_cost, T):
                 "swallowed an opaque payload (engine data, XMP, ICC, strings, paths, patterns ...) in some fixture <= 300 KB, "
                 "a few such payloads under same-length overwrites (tail behind the first / last occurrence of each token "
                 "start the payload contains x 24 fillers; plain anchors; random anchor x injected prefix x filler x window), "
-                "all enclosing length fields untouched. Export calls (every 5th opened input: composite/topil; every 20th and all hand-made ones: "
+                "all enclosing length fields untouched. PAIRS: for every count-driven loop of the regenerated ReadLoops table an "
+                "instance is located in a traced parse (count field = the numeric field in front of the loop whose value is the "
+                "number of iterations observed; first item = the reads of the first iteration) and count = ff.. / 7f.. is "
+                "combined with each of the first %d numeric fields of the first item set to 0, 1, its own size, the size of the "
+                "item header up to it, max - on the fixtures that hold an instance (quick: the three smallest + one drawn; "
+                "thorough: all) and on a synthetic minimal instance (the enclosing block / resource transplanted into the "
+                "synthetic document, PSD and PSB). NESTING: for every recursive container (Lr16 / Lr32 in a record, the chain "
+                "started in the document-level blocks, descriptor in descriptor, list in list, layer groups) depth-d chains "
+                "with 0 / 1 / 8 / 64 junk bytes behind every level, d on a ladder up to the reader's recursion limit + 2, run "
+                "depth by depth (a chain that produced a failing input is dropped). TIME: for every input with a twin answer, "
+                "CPU seconds of PSDImage.open <= max(%.1f s, %.0f x c x ticks) with ticks = open.cost of this input (<= the "
+                "polynomial of open_steps_bound, used when there is no twin answer) and c = the 95th percentile of seconds per "
+                "tick over the inputs of the run so far. Export calls (every 5th opened input: composite/topil; every 20th and all hand-made ones: "
                 "also the first 8 layers' topil/numpy) are violations only for crashes, non-Exceptions, and hangs / "
                 "MemoryErrors on files that DECLARE at most 8 MiB of pixels (the compositor's float32 working set is "
                 "proportional to the declared volume, measured at up to ~45 x)" % (C, TIMEOUT, RSS_CONST_KB, RSS_FACTOR,
-                                                                                    len(BATTERY["reject"]), len(BATTERY["same"])))
+                                                                                    len(BATTERY["reject"]), len(BATTERY["same"]),
+                                                                                    CP.MAX_FIELDS, TIME_FLOOR, TIME_FACTOR))
     ctx.trusted_base = ["Lean kernel", "lean/PsdVerif/Model/Psd.lean (hand transliteration of the skeleton readers, checked by "
                         "this correspondence, not proved equal to the Python)", "harness/c06_worker.py + harness/c06_pool.py (the "
                         "watchdog; self-tested on every run against a busy loop, a sleeping process, a segfault, os._exit, a 3 GiB allocation, "
@@ -999,7 +1013,15 @@ def _run(ctx, pool, hello, has_cost, T):
         "watchdog only (no model)": "PSDImage._init (layer tree) and the export paths composite()/topil()/numpy() with zlib, PIL, "
         "NumPy and the compiled _rle extension; real time and memory of everything",
     }
+    no_inst = (info.get("pairs") or {}).get("loops_without_instance_in_any_fixture") or []
+    if no_inst:
+        ctx.notes.append("count-driven loops of the table with no executed instance in any fixture <= 300 KB (pairs not "
+                         "applied; the export-time loops of compression/* and ImageData are driven by the header and run at "
+                         "export only): " + "; ".join(no_inst))
     ctx.notes += [
+        "read_seeks_tied: the reading functions move the cursor other than by reading at eight reviewed places, none inside a "
+        "loop (regenerated from the AST on every run); the pairs section is the search-side counterpart (count = max together "
+        "with a zero / self-sized length of the first item).",
         "PARTIAL with respect to the property: the theorems bound the MODEL's steps / allocations / outcomes (now for the whole "
         "typed reader: Props/C06.open_steps_bound, ticks + bytes <= (2105 + 4n + 168 min(D, n/12)) n + 287 for every byte string); "
         "real time, memory and interpreter crashes are runtime behaviour that only the watchdog observes, on the inputs of this run.",
